@@ -140,6 +140,12 @@ impl<R: AsyncRead + Unpin> VFramedRead<R> {
     }
 }
 
+/// The server connection handler's packing of pending blocks into the next message:
+/// returns the message and the blocks that stay pending.
+pub fn pack_next(pending: Vec<(Vec<u8>, Vec<u8>)>) -> (Message, Vec<(Vec<u8>, Vec<u8>)>) {
+    crate::server::verif_take_next_message(pending)
+}
+
 /// `CidPrefix`
 #[derive(Debug, Clone, PartialEq, Eq)]
 pub struct VPrefix(CidPrefix);
